@@ -94,6 +94,8 @@ def first_principle_shifts(rule):
         o = first_principle_shifts(rule.original_rule)
         p = -o[rule.idx]
         return (p,) + tuple(s + p for i, s in enumerate(o) if i != rule.idx)
+    if type(rule.strategy).__name__ == "Drop":
+        return (len(rule.comb_class.prefix),)
     if isinstance(rule.strategy, CartesianProductStrategy):
         mins = [true_min(ch) for ch in rule.children]
         assert all(m is not None for m in mins)
